@@ -12,13 +12,9 @@ def opt(s):
 def finding_key(v):
     """canonical keys of the defect classes the search can hit (suppressed via known_findings.json)"""
     t, law, inp = v["term"], v["violation"], v["input"]
-    # un.rs JoinPat (repaired for a join-free dipped function by 8f54207; these two classes are still open)
-    if t.startswith("directed:nonchain:") or "#join:nonchain" in t:
-        return "un-join-dip-nonchain"
-    if t.startswith("directed:segment-order:") or "#join:segment-order" in t:
-        return "un-join-segment-order"
+    # un.rs JoinPat: every directed entry is a regression now (8f54207, 2e21ff6, 6d27c00): a failure is a violation
     if t.startswith("directed:"):
-        return None     # a regression entry failing is a violation in its own right
+        return None
     if law in ("unun", "left", "left-node", "right") and ("char" in inp or "box" in inp) and \
             any(k in t for k in ("neg", "add1", "sub2", "rsub5", "mul2", "div2", "not")):
         return "algebra-reassociates-on-characters"
